@@ -1,42 +1,75 @@
-// Correspondence harness for C09 (sequential part): drives real String / Variant / RefCount::Ptr
-// variables through handle histories and prints, after every operation, each variable's value,
-// the number of live payload blocks, the number of payload releases, the sharing classes and the
-// reference counters.  Payload blocks are counted by ASan's malloc/free hooks inside the window
-// of the library call (String, Variant) or by the pointee's constructor/destructor (Ptr).
+// Correspondence harness for C09.
+//
+// Sequential part: drives real String / Variant / RefCount::Ptr / Xml::Variant variables through
+// handle histories and prints, after every operation, each variable's value, the number of live
+// payload blocks, the number of payload releases, the sharing classes and the reference counters.
+// Payload blocks are counted by ASan's malloc/free hooks inside the window of the library call
+// (String, Variant, Xml::Variant) or by the pointee's constructor/destructor (Ptr).
+//
+// Concurrent part (flavours cstr / cvar / cptr / cxml): real threads, each owning its own handle
+// variables, some of which refer to one common payload.  Every atomic operation of the library
+// (`__sync_add_and_fetch`, the only builtin Atomic::increment/decrement use) is bracketed by two
+// scheduling points.  `go <tid...>`: the threads pass a baton, the listed thread ids decide who
+// runs after each scheduling point (the same list drives the Coq interleaving machine); `free <n>`:
+// n repetitions with the threads running freely after a common start signal.  After the join the
+// same observation as in the sequential part is printed, then every handle left is destroyed and the
+// number of payload blocks still allocated is printed (`after=`).
 #include "vh.hpp"
+#include <pthread.h>
+#include <semaphore.h>
+#include <sched.h>
+
+extern "C" void verif_point(void);
+template <class T, class V> static inline T verif_aaf(T volatile* p, V v)
+{
+  verif_point();
+  T r = __sync_add_and_fetch(p, v);
+  verif_point();
+  return r;
+}
+#define __sync_add_and_fetch(p, v) verif_aaf(p, v)
+
 #define private public
 #define protected public
 #include <nstd/String.hpp>
 #include <nstd/Variant.hpp>
 #include <nstd/RefCount.hpp>
+#include <nstd/Document/Xml.hpp>
 #undef private
 #undef protected
 
 extern "C" int __sanitizer_install_malloc_and_free_hooks(void (*malloc_hook)(const volatile void*, size_t),
                                                          void (*free_hook)(const volatile void*));
 
-enum { NV = 6, MAXT = 65536 };
-enum Flav { STR, VAR, PTR };
+enum { NV = 6, MAXTH = 4, NSLOT = NV * MAXTH, MAXT = 65536, MAXPROG = 64, MAXSCHED = 4096 };
+enum Flav { STR, VAR, PTR, XML };
+typedef Xml::Variant XV;
 static Flav flav;
+static bool conc;
 
 // ---- ledger of payload blocks -----------------------------------------------------------------
-static volatile int g_win = 0;
+static __thread int g_win = 0;
 static size_t g_size_filter = 0;          // 0 = every allocation in the window
 static const volatile void* g_tab[MAXT];
 static int g_ntab = 0;
 static long g_frees = 0;
+static pthread_mutex_t g_lock = PTHREAD_MUTEX_INITIALIZER;
 
 static void on_malloc(const volatile void* p, size_t n)
 {
   if(!g_win) return;
   if(g_size_filter && n != g_size_filter) return;
+  pthread_mutex_lock(&g_lock);
   if(g_ntab < MAXT) g_tab[g_ntab++] = p;
+  pthread_mutex_unlock(&g_lock);
 }
 static void on_free(const volatile void* p)
 {
   if(!p) return;
+  pthread_mutex_lock(&g_lock);
   for(int i = g_ntab - 1; i >= 0; --i)
-    if(g_tab[i] == p) { g_tab[i] = g_tab[--g_ntab]; ++g_frees; return; }
+    if(g_tab[i] == p) { g_tab[i] = g_tab[--g_ntab]; ++g_frees; break; }
+  pthread_mutex_unlock(&g_lock);
 }
 
 // ---- pointee of the Ptr flavour -----------------------------------------------------------------
@@ -44,58 +77,106 @@ struct T : public RefCount::Object
 {
   int id; long n; unsigned canary;
   static long constructed, destroyed, bad;
-  T(long n) : id((int)constructed++), n(n), canary(0xC0FFEE01u) {}
-  ~T() { if(canary != 0xC0FFEE01u) ++bad; canary = 0xDEADDEADu; ++destroyed; }
+  T(long n) : id((int)__sync_fetch_and_add(&constructed, 1)), n(n), canary(0xC0FFEE01u) {}
+  ~T() { if(canary != 0xC0FFEE01u) __sync_fetch_and_add(&bad, 1); canary = 0xDEADDEADu; __sync_fetch_and_add(&destroyed, 1); }
 };
 long T::constructed = 0, T::destroyed = 0, T::bad = 0;
 typedef RefCount::Ptr<T> P;
 
 // ---- variables: raw storage, explicit construction / destruction ----------------------------------
-union Slot { char s[sizeof(String)]; char v[sizeof(Variant)]; char p[sizeof(P)]; long long align; double d; };
-static Slot slots[NV];
-static bool live[NV];
+union Slot { char s[sizeof(String)]; char v[sizeof(Variant)]; char p[sizeof(P)]; char x[sizeof(XV)]; long long align; double d; };
+static Slot slots[NSLOT];
+static bool live[NSLOT];
 #define S(i) ((String*)slots[i].s)
 #define V(i) ((Variant*)slots[i].v)
 #define Q(i) ((P*)slots[i].p)
+#define X(i) ((XV*)slots[i].x)
 
 static void destroy(int v)
 {
   g_win = 1;
-  if(flav == STR) S(v)->~String(); else if(flav == VAR) V(v)->~Variant(); else Q(v)->~P();
+  if(flav == STR) S(v)->~String(); else if(flav == VAR) V(v)->~Variant(); else if(flav == XML) X(v)->~XV(); else Q(v)->~P();
   g_win = 0;
   live[v] = false;
 }
 
-static void begin(long, vh::Tok& t)
+static void create(int x, long y)
 {
-  for(int i = 0; i < NV; ++i) if(live[i]) destroy(i);
-  flav = STR;
-  if(t.n > 2 && !strcmp(t.v[2], "var")) flav = VAR;
-  if(t.n > 2 && !strcmp(t.v[2], "ptr")) flav = PTR;
-  g_size_filter = flav == VAR ? sizeof(Variant::Data) + sizeof(List<Variant>) : 0;
-  g_ntab = 0; g_frees = 0;
-  T::constructed = T::destroyed = T::bad = 0;
+  if(flav == STR) { g_win = 1; new (slots[x].s) String((usize)y, 'x'); g_win = 0; }
+  else if(flav == VAR) {
+    List<Variant> l;
+    for(long i = 0; i < y; ++i) l.append(Variant((int)i));
+    g_win = 1; new (slots[x].v) Variant(l); g_win = 0;
+  }
+  else if(flav == XML) {
+    Xml::Element e;
+    for(long i = 0; i < y; ++i) e.content.append(XV(String("t")));
+    g_win = 1; new (slots[x].x) XV(e); g_win = 0;
+  }
+  else { T* raw = new T(y); new (slots[x].p) P(raw); }
+  live[x] = true;
+}
+static void copy(int x, int y)
+{
+  g_win = 1;
+  if(flav == STR) new (slots[x].s) String(*S(y)); else if(flav == VAR) new (slots[x].v) Variant(*V(y)); else if(flav == XML) new (slots[x].x) XV(*X(y)); else new (slots[x].p) P(*Q(y));
+  g_win = 0;
+  live[x] = true;
+}
+static void assign(int x, int y)
+{
+  g_win = 1;
+  if(flav == STR) *S(x) = *S(y); else if(flav == VAR) *V(x) = *V(y); else if(flav == XML) *X(x) = *X(y); else *Q(x) = *Q(y);
+  g_win = 0;
+}
+static void write(int x)
+{
+  if(flav == STR) { g_win = 1; S(x)->append('x'); g_win = 0; }
+  else if(flav == XML) { XV one(String("t")); g_win = 1; X(x)->toElement().content.append(one); g_win = 0; }
+  else if(flav == VAR) { Variant one(1); g_win = 1; V(x)->toList().append(one); g_win = 0; }
+}
+// write access that cannot be done in place even when the handle is the only one (String: capacity)
+static void write_force(int x)
+{
+  if(flav == STR) { g_win = 1; S(x)->reserve(S(x)->length() + 64); S(x)->append('x'); g_win = 0; }   // reserve clones (capacity too small); the append is then in place
+  else write(x);
+}
+static __thread unsigned long g_sink;
+static void readval(int x)
+{
+  unsigned long a = 0;
+  if(flav == STR) { const String& s = *S(x); a = s.length(); const char* p = (const char*)s.data->str; for(usize i = 0; i < s.length(); ++i) a += (unsigned char)p[i]; }
+  else if(flav == VAR) { const Variant* v = V(x); a = v->toList().size(); }
+  else if(flav == XML) { const XV* v = X(x); a = v->toElement().content.size(); }
+  else { T* o = Q(x)->obj; a = (unsigned long)o->n + (o->canary == 0xC0FFEE01u ? 0 : 1000000); }
+  g_sink += a;
 }
 
 static long live_blocks() { return flav == PTR ? T::constructed - T::destroyed : g_ntab; }
 static long releases() { return flav == PTR ? T::destroyed : g_frees; }
 
-static void observe(long c)
+static void observe_to(char* out, int nslots, int group)
 {
-  const void* cls[NV]; int ncls = 0;
-  char vals[512], classes[128], rcs[256];
+  const void* cls[NSLOT]; int ncls = 0;
+  char vals[1024], classes[512], rcs[1024];
   int a = 0, b = 0, r = 0;
-  for(int i = 0; i < NV; ++i) {
+  for(int i = 0; i < nslots; ++i) {
     const void* blk = 0; unsigned long long rc = 0; bool same = true;
+    if(group && i && i % group == 0) { a += sprintf(vals + a, "; "); b += sprintf(classes + b, "; "); r += sprintf(rcs + r, "; "); }
     if(!live[i]) { a += sprintf(vals + a, "D "); }
     else if(flav == STR) {
       a += sprintf(vals + a, "%llu ", (unsigned long long)S(i)->length());
-      if(S(i)->data != &String::emptyData) { blk = S(i)->data; rc = S(i)->data->ref; }
+      if(S(i)->data != &String::emptyData && S(i)->data != &S(i)->_data) { blk = S(i)->data; rc = S(i)->data->ref; }
     } else if(flav == VAR) {
       const Variant* v = V(i);
       if(v->isNull()) a += sprintf(vals + a, "- ");
       else { a += sprintf(vals + a, "%llu ", (unsigned long long)v->toList().size()); }
-      if(v->data != &Variant::nullData) { blk = v->data; rc = v->data->ref; }
+      if(v->data != &Variant::nullData && v->data != &v->_data) { blk = v->data; rc = v->data->ref; }   // _data: inline, never counted
+    } else if(flav == XML) {
+      const XV* v = X(i);
+      if(v->isNull()) a += sprintf(vals + a, "- ");
+      else { a += sprintf(vals + a, "%llu ", (unsigned long long)v->toElement().content.size()); }
+      if(v->data != &XV::nullData) { blk = v->data; rc = v->data->ref; }
     } else {
       P* p = Q(i);
       if(!p->obj) a += sprintf(vals + a, "- ");
@@ -117,11 +198,177 @@ static void observe(long c)
     }
   }
   vals[a ? a - 1 : 0] = 0; classes[b ? b - 1 : 0] = 0; rcs[r ? r - 1 : 0] = 0;
-  printf("%ld %s | live=%ld dtors=%ld | %s | %s\n", c, vals, live_blocks(), releases(), classes, rcs);
+  if(group) sprintf(out, "%s | live=%ld | %s | %s", vals, live_blocks(), classes, rcs);
+  else sprintf(out, "%s | live=%ld dtors=%ld | %s | %s", vals, live_blocks(), releases(), classes, rcs);
+}
+
+// ================================ concurrent part =================================================
+struct COp { char kind; int a, b; };     // c copy, a assign, d drop, w write, W write(force), r read, s swap
+static int c_nth, c_nv; static long c_val;
+static int c_own[MAXTH];
+static COp c_prog[MAXTH][MAXPROG]; static int c_len[MAXTH];
+
+static int g_mode = 0;                   // 0: no scheduling, 1: baton passing, 2: free running
+static int g_sched[MAXSCHED]; static int g_nsched, g_spos;
+static sem_t g_sem[MAXTH], g_sem_main;
+static volatile int g_done[MAXTH];
+static __thread int g_me = -1;
+static volatile int g_start;
+
+static int pick_next(int me)
+{
+  while(g_spos < g_nsched) {
+    int id = g_sched[g_spos++];
+    if(id >= 0 && id < c_nth && !g_done[id]) return id;
+  }
+  if(me >= 0 && !g_done[me]) return me;
+  for(int i = 0; i < c_nth; ++i) if(!g_done[i]) return i;
+  return -1;
+}
+
+extern "C" void verif_point(void)
+{
+  if(g_mode != 1 || g_me < 0) return;
+  int next = pick_next(g_me);
+  if(next != g_me && next >= 0) { sem_post(&g_sem[next]); sem_wait(&g_sem[g_me]); }
+}
+
+static void exec_op(int t, const COp& o)
+{
+  int base = t * NV;
+  int x = base + o.a, y = base + o.b;
+  bool ax = o.a >= 0 && o.a < c_nv, bx = o.b >= 0 && o.b < c_nv;
+  switch(o.kind) {
+  case 'c': if(ax && bx && !live[x] && live[y]) copy(x, y); break;
+  case 'a': if(ax && bx && live[x] && live[y]) assign(x, y); break;
+  case 'd': if(ax && live[x]) destroy(x); break;
+  case 'w': if(ax && live[x]) write(x); break;
+  case 'W': if(ax && live[x]) write_force(x); break;
+  case 'r': if(ax && live[x]) readval(x); break;
+  case 's': if(flav == PTR && ax && bx && live[x] && live[y] && x != y) Q(x)->swap(*Q(y)); break;
+  }
+}
+
+static void* thread_main(void* arg)
+{
+  int t = (int)(long)arg;
+  g_me = t;
+  if(g_mode == 1) sem_wait(&g_sem[t]);
+  else { while(!g_start) sched_yield(); }
+  for(int i = 0; i < c_len[t]; ++i) exec_op(t, c_prog[t][i]);
+  if(g_mode == 1) {
+    g_done[t] = 1;
+    int next = pick_next(-1);
+    if(next >= 0) sem_post(&g_sem[next]); else sem_post(&g_sem_main);
+  }
+  return 0;
+}
+
+static void conc_reset()
+{
+  for(int i = 0; i < NSLOT; ++i) if(live[i]) destroy(i);
+  g_ntab = 0; g_frees = 0;
+  T::constructed = T::destroyed = T::bad = 0;
+}
+
+// one run from the initial configuration; the observation goes to out
+static void conc_run(char* out)
+{
+  conc_reset();
+  // the common payload, and the threads' handles to it; the creating handle is dropped before the start
+  int first = -1;
+  for(int t = 0; t < c_nth && first < 0; ++t) if(c_own[t] > 0) first = t * NV;
+  if(first >= 0) {
+    create(first, c_val);
+    for(int t = 0; t < c_nth; ++t)
+      for(int j = 0; j < c_own[t]; ++j)
+        if(t * NV + j != first) copy(t * NV + j, first);
+  }
+  pthread_t th[MAXTH];
+  g_spos = 0; g_start = 0;
+  sem_init(&g_sem_main, 0, 0);
+  for(int t = 0; t < c_nth; ++t) { g_done[t] = 0; sem_init(&g_sem[t], 0, 0); }
+  for(int t = 0; t < c_nth; ++t) pthread_create(&th[t], 0, thread_main, (void*)(long)t);
+  if(g_mode == 1) {
+    int next = pick_next(-1);
+    if(next >= 0) { sem_post(&g_sem[next]); sem_wait(&g_sem_main); }
+  }
+  else g_start = 1;
+  for(int t = 0; t < c_nth; ++t) pthread_join(th[t], 0);
+  int mode = g_mode; g_mode = 0;
+  char obs[4096];
+  observe_to(obs, c_nth * NV, NV);
+  for(int i = 0; i < NSLOT; ++i) if(live[i]) destroy(i);
+  sprintf(out, "%s | after=%ld%s", obs, live_blocks(), T::bad ? " BADCANARY" : "");
+  g_mode = mode;
+}
+
+static void conc_op(long c, vh::Tok& t)
+{
+  const char* o = t.v[0];
+  if(!strcmp(o, "init")) {
+    c_val = t.n > 1 ? atol(t.v[1]) : 0;
+    c_nv = t.n > 2 ? atoi(t.v[2]) : 1;
+    if(c_nv > NV) c_nv = NV; if(c_nv < 1) c_nv = 1;
+    c_nth = t.n - 3; if(c_nth > MAXTH) c_nth = MAXTH; if(c_nth < 0) c_nth = 0;
+    for(int i = 0; i < c_nth; ++i) { c_own[i] = atoi(t.v[3 + i]); if(c_own[i] > c_nv) c_own[i] = c_nv; if(c_own[i] < 0) c_own[i] = 0; c_len[i] = 0; }
+    printf("%ld init\n", c);
+  } else if(!strcmp(o, "t")) {
+    int tid = t.n > 1 ? atoi(t.v[1]) : -1;
+    if(tid >= 0 && tid < c_nth && c_len[tid] < MAXPROG && t.n > 3) {
+      COp op; op.a = atoi(t.v[3]); op.b = t.n > 4 ? atoi(t.v[4]) : 0;
+      const char* k = t.v[2];
+      op.kind = !strcmp(k, "copy") ? 'c' : !strcmp(k, "assign") ? 'a' : !strcmp(k, "drop") ? 'd' : !strcmp(k, "read") ? 'r' :
+                !strcmp(k, "swap") ? 's' : !strcmp(k, "write") ? (t.n > 4 && !strcmp(t.v[4], "force") ? 'W' : 'w') : '?';
+      c_prog[tid][c_len[tid]++] = op;
+    }
+    printf("%ld t\n", c);
+  } else if(!strcmp(o, "go")) {
+    g_nsched = 0;
+    for(int i = 1; i < t.n && g_nsched < MAXSCHED; ++i) g_sched[g_nsched++] = atoi(t.v[i]);
+    char out[4608];
+    g_mode = 1; conc_run(out); g_mode = 0;
+    printf("%ld %s\n", c, out);
+  } else if(!strcmp(o, "free")) {
+    int reps = t.n > 1 ? atoi(t.v[1]) : 1;
+    char first[4608], out[4608]; first[0] = 0;
+    bool same = true;
+    for(int r = 0; r < reps; ++r) {
+      g_mode = 2; conc_run(out); g_mode = 0;
+      if(r == 0) strcpy(first, out);
+      else if(strcmp(first, out)) { same = false; break; }
+    }
+    if(same) printf("%ld %s\n", c, first);
+    else printf("%ld DIFFERENT-RUNS `%s` vs `%s`\n", c, first, out);
+  } else printf("%ld ?unknown-op\n", c);
+}
+
+// ================================ sequential part ==================================================
+static void begin(long, vh::Tok& t)
+{
+  for(int i = 0; i < NSLOT; ++i) if(live[i]) destroy(i);
+  flav = STR; conc = false;
+  const char* f = t.n > 2 ? t.v[2] : "str";
+  if(f[0] == 'c') { conc = true; ++f; }
+  if(!strcmp(f, "var")) flav = VAR;
+  if(!strcmp(f, "ptr")) flav = PTR;
+  if(!strcmp(f, "xml")) flav = XML;
+  g_size_filter = flav == VAR ? sizeof(Variant::Data) + sizeof(List<Variant>) : flav == XML ? sizeof(XV::Data) + sizeof(Xml::Element) : 0;
+  g_ntab = 0; g_frees = 0;
+  T::constructed = T::destroyed = T::bad = 0;
+  c_nth = 0; c_nv = 1; c_val = 0;
+}
+
+static void observe(long c)
+{
+  char out[4096];
+  observe_to(out, NV, 0);
+  printf("%ld %s\n", c, out);
 }
 
 static void op(long c, long, vh::Tok& t)
 {
+  if(conc) { conc_op(c, t); return; }
   const char* o = t.v[0];
   int x = t.n > 1 ? atoi(t.v[1]) : 0;
   long y = t.n > 2 ? atol(t.v[2]) : 0;
@@ -129,55 +376,34 @@ static void op(long c, long, vh::Tok& t)
   bool two = !strcmp(o, "copy") || !strcmp(o, "fromraw") || !strcmp(o, "assign") || !strcmp(o, "swap");
   if(two && (y < 0 || y >= NV)) { printf("%ld ?bad-var\n", c); return; }
   if(!strcmp(o, "create")) {
-    if(!live[x]) {
-      if(flav == STR) { g_win = 1; new (slots[x].s) String((usize)y, 'x'); g_win = 0; }
-      else if(flav == VAR) {
-        List<Variant> l;
-        for(long i = 0; i < y; ++i) l.append(Variant((int)i));
-        g_win = 1; new (slots[x].v) Variant(l); g_win = 0;
-      }
-      else { T* raw = new T(y); new (slots[x].p) P(raw); }
-      live[x] = true;
-    }
+    if(!live[x]) create(x, y);
   } else if(!strcmp(o, "null")) {
     if(!live[x]) {
       g_win = 1;
-      if(flav == STR) new (slots[x].s) String(); else if(flav == VAR) new (slots[x].v) Variant(); else new (slots[x].p) P();
+      if(flav == STR) new (slots[x].s) String(); else if(flav == VAR) new (slots[x].v) Variant(); else if(flav == XML) new (slots[x].x) XV(); else new (slots[x].p) P();
       g_win = 0;
       live[x] = true;
     }
   } else if(!strcmp(o, "copy")) {
-    if(!live[x] && live[y]) {
-      g_win = 1;
-      if(flav == STR) new (slots[x].s) String(*S(y)); else if(flav == VAR) new (slots[x].v) Variant(*V(y)); else new (slots[x].p) P(*Q(y));
-      g_win = 0;
-      live[x] = true;
-    }
+    if(!live[x] && live[y]) copy(x, (int)y);
   } else if(!strcmp(o, "fromraw")) {
     if(flav == PTR && !live[x] && live[y]) { new (slots[x].p) P(Q(y)->operator->()); live[x] = true; }
   } else if(!strcmp(o, "assign")) {
-    if(live[x] && live[y]) {
-      g_win = 1;
-      if(flav == STR) *S(x) = *S(y); else if(flav == VAR) *V(x) = *V(y); else *Q(x) = *Q(y);
-      g_win = 0;
-    }
+    if(live[x] && live[y]) assign(x, (int)y);
   } else if(!strcmp(o, "reset")) {
     if(live[x]) {
       g_win = 1;
-      if(flav == STR) S(x)->clear(); else if(flav == VAR) V(x)->clear(); else *Q(x) = (T*)0;
+      if(flav == STR) S(x)->clear(); else if(flav == VAR) V(x)->clear(); else if(flav == XML) X(x)->clear(); else *Q(x) = (T*)0;
       g_win = 0;
     }
   } else if(!strcmp(o, "swap")) {
     if(flav == PTR && live[x] && live[y] && x != y) Q(x)->swap(*Q(y));
   } else if(!strcmp(o, "write")) {
-    if(live[x] && flav != PTR) {
-      if(flav == STR) { g_win = 1; S(x)->append('x'); g_win = 0; }
-      else { Variant one(1); g_win = 1; V(x)->toList().append(one); g_win = 0; }
-    }
+    if(live[x] && flav != PTR) write(x);
   } else if(!strcmp(o, "detach")) {
     if(live[x] && flav != PTR) {
       g_win = 1;
-      if(flav == STR) S(x)->detach(); else V(x)->toList();
+      if(flav == STR) S(x)->detach(); else if(flav == XML) X(x)->toElement(); else V(x)->toList();
       g_win = 0;
     }
   } else if(!strcmp(o, "destroy")) {
@@ -188,7 +414,8 @@ static void op(long c, long, vh::Tok& t)
 
 static void end(long c)
 {
-  for(int i = 0; i < NV; ++i) if(live[i]) destroy(i);
+  for(int i = 0; i < NSLOT; ++i) if(live[i]) destroy(i);
+  if(conc) { printf("%ld end\n", c); return; }
   if(T::bad) printf("%ld end BADCANARY\n", c);
   else printf("%ld end | live=%ld dtors=%ld\n", c, live_blocks(), releases());
 }
